@@ -278,7 +278,11 @@ func (in *Interp) visitInstr(fr *frame, instr ssa.Instruction) continuation {
 			if fr.symDecisions[instr] > in.cfg.Unwind {
 				in.abortPath(outcomeBound, fmt.Sprintf("unwind bound %d exceeded%s", in.cfg.Unwind, in.where(fr, instr.Pos())))
 			}
-			if in.branch(cond, in.posString(instr.Pos())) {
+			pos := instr.Pos()
+			if pos == token.NoPos {
+				pos = instr.Cond.Pos()
+			}
+			if in.branch(cond, in.posString(pos)) {
 				succ = 0
 			}
 		}
